@@ -107,6 +107,45 @@ theorem count_some_map (f : Nat → Nat) (l : List Nat) (i : Nat) :
   rw [List.count_eq_countP, List.countP_map]
   congr 1
 
+/-! ### past the sign bit -/
+
+/-- a counter value `c` in `[2^63, 2^64)` whose distance to 2^64 is not a multiple of `n` gives a negative slot index -/
+theorem rrIndex_neg (c n : Nat) (hn : 0 < n) (h1 : two63 ≤ c) (h2 : c < two64) (hm : (two64 - c) % n ≠ 0) :
+    ∃ i, rrIndex c n = some i ∧ i < 0 := by
+  unfold rrIndex goRem toInt64
+  rw [if_neg (by omega), if_neg (by omega)]
+  refine ⟨_, rfl, ?_⟩
+  have e : ((c : Int) - (two64 : Int)) = -(((two64 - c : Nat)) : Int) := by omega
+  rw [e, Int.neg_tmod, ← Int.ofNat_tmod]
+  have : 0 < (two64 - c) % n := Nat.pos_of_ne_zero hm
+  omega
+
+theorem rrPick_neg (acc n : Nat) (hn : 0 < n) (h1 : two63 ≤ acc + 1) (h2 : acc + 1 < two64)
+    (hm : (two64 - (acc + 1)) % n ≠ 0) : (rrPick acc n n).2 = none := by
+  have hc : rrNext acc = acc + 1 := by unfold rrNext; exact Nat.mod_eq_of_lt h2
+  obtain ⟨i, hi, hneg⟩ := rrIndex_neg (acc + 1) n hn h1 h2 hm
+  unfold rrPick
+  simp only [hc, hi]
+  rw [if_pos hneg]
+
+/-- for every pool size `n ≥ 2` one of the two tickets 2^63, 2^63+1 makes `Pick` panic -/
+theorem rrPick_sign (n : Nat) (hn : 2 ≤ n) :
+    (rrPick (two63 - 1) n n).2 = none ∨ (rrPick two63 n n).2 = none := by
+  by_cases h : (two64 - two63) % n = 0
+  · right
+    apply rrPick_neg two63 n (by omega) (by omega) (by decide)
+    intro h'
+    have e : two64 - two63 = (two64 - (two63 + 1)) + 1 := by decide
+    have d1 : n ∣ two64 - two63 := Nat.dvd_of_mod_eq_zero h
+    have d2 : n ∣ two64 - (two63 + 1) := Nat.dvd_of_mod_eq_zero h'
+    rw [e] at d1
+    have d3 : n ∣ 1 := (Nat.dvd_add_right d2).mp d1
+    have := Nat.le_of_dvd (by omega) d3
+    omega
+  · left
+    apply rrPick_neg (two63 - 1) n (by omega) (by decide) (by decide)
+    have e : two64 - (two63 - 1 + 1) = two64 - two63 := by decide
+    rw [e]; exact h
 /-! ### counting pollers -/
 
 /-- a duplicate-free list of naturals that is exactly `{0,…,m-1}` has length `m` -/
